@@ -132,6 +132,23 @@ func GenerateGRPC(r *lp.Rng, index int) *Design {
 					m.Result = &Att{Type: &Type{Prim: "String"}}
 				}
 			}
+			// every fifth design: the payload is a type that refers to a base type (Reference) and re-declares the
+			// inherited attributes with field numbers of its own (the design's numbers are the ones that count)
+			if index%5 == 2 && mi == 0 && (m.Stream == "" || m.Stream == "result") {
+				base := fmt.Sprintf("Base%d", si)
+				derived := fmt.Sprintf("Derived%d", si)
+				d.Types = append(d.Types, &TypeDef{Name: base, Kind: "type", Att: &Att{Type: &Type{IsObject: true, Object: []*Field{
+					{Name: "kind", Att: tag(&Att{Type: &Type{Prim: "String"}}, 1)},
+					{Name: "id", Att: tag(&Att{Type: &Type{Prim: "Int32"}}, 2)},
+					{Name: "label", Att: tag(&Att{Type: &Type{Prim: "String"}}, 3)}}}}})
+				d.Types = append(d.Types, &TypeDef{Name: derived, Kind: "type", Reference: base, Att: &Att{Type: &Type{IsObject: true, Object: []*Field{
+					{Name: "kind", Att: tag(&Att{}, 1)},
+					{Name: "id", Att: tag(&Att{}, 3)},
+					{Name: "label", Att: tag(&Att{}, 2)},
+					{Name: "extra", Att: tag(&Att{Type: &Type{Prim: "Boolean"}}, 4)}}}}})
+				m.Payload = &Att{Type: &Type{Ref: derived}}
+				m.GRPC.Metadata, m.GRPC.Message = nil, nil
+			}
 			// metadata: one primitive payload attribute travels outside the message
 			if m.Payload != nil && isInlineObject(m.Payload) && m.Stream != "payload" && m.Stream != "both" && r.Intn(2) == 0 {
 				for _, f := range m.Payload.Type.Object {
